@@ -393,7 +393,7 @@ def analyze(ctx, want):
             # `debug_assert!(c)` / `if cfg!(debug_assertions) && !c { panic!() }` / `unwrap_or_else(|| panic!())` ("explicit panic
             # on a condition the table justifies as impossible"): rewriting one member of a class into another does not change
             # what has to be justified
-            if k in ("call:unwrap", "call:index"):
+            if k in ("call:unwrap", "call:index", "assert:BoundsCheck"):      # (`v[i]` on a slice / array is a BoundsCheck assert, on a Vec an Index::index call)
                 return "call:access"
             if k == "debug_assert" or re.match(r"call:panicking::(panic|panic_fmt|panic_display|panic_explicit|panic_nounwind)$", k):
                 return "call:explicit"
